@@ -1063,6 +1063,8 @@ class FuncWalk:
             self.mutate(args[0], n, "setattr()")
             return FRESH_IMM
         if base in ("next",) and args:
+            if args[0].kind != "imm":
+                self.mutate(args[0], n, "next() (consumes / advances the iterator)")
             return Val(args[0].reach, args[0].reach, "?")
         return Val(E, allreach, "?")
 
